@@ -32,8 +32,14 @@ META = {
 
 def shapes(n):
     """(name, steel source).  Every program ends with (list result early-depth late-depth)."""
-    pro = "(define d1 #f) (define d2 #f) (define (probe i) (cond [(= i %d) (set! d1 (#%%verif-stack-depth))] [(= i 7) (set! d2 (#%%verif-stack-depth))] [else #f]))\n" % (n - 7)
-    end = "\n(list r d1 d2)"
+    # probes at three iterations that are congruent modulo 30 (= lcm of the cycle lengths 1, 2, 3, 5), so that all
+    # three are taken inside the same procedure of a mutual cycle: which procedure of the cycle the probe is in
+    # changes the depth by a constant, the iteration count must not
+    early = 7 + 30 * ((n - 37) // 30)
+    mid = 7 + 30 * ((n // 2) // 30)
+    pro = ("(define d1 #f) (define d2 #f) (define d3 #f) (define (probe i) (cond [(= i %d) (set! d1 (#%%verif-stack-depth))] "
+           "[(= i %d) (set! d3 (#%%verif-stack-depth))] [(= i 7) (set! d2 (#%%verif-stack-depth))] [else #f]))\n" % (early, mid))
+    end = "\n(list r d1 d2 d3)"
     s = []
     s.append(("self", pro + "(define (loop i acc) (probe i) (if (= i 0) acc (loop (- i 1) (+ acc 1))))\n(define r (loop %d 0))" % n + end))
     for k in (2, 3, 5):
@@ -82,12 +88,12 @@ def run(ctx):
     n = 1000000 if ctx.quick() else 10000000
     jobs = [(name, src, jit) for name, src in shapes(n) for jit in (True, False)]
     # non-tail recursion: deep but below the limit must work; it must never crash the host
-    deep = "(define (deep n) (if (= n 0) 0 (+ 1 (deep (- n 1)))))\n(define r (deep %d))\n(list r 0 0)" % (200000 if ctx.quick() else 2000000)
+    deep = "(define (deep n) (if (= n 0) 0 (+ 1 (deep (- n 1)))))\n(define r (deep %d))\n(list r 0 0 0)" % (200000 if ctx.quick() else 2000000)
     jobs += [("deep-nontail", deep, True), ("deep-nontail", deep, False)]
     for name, jit, rc, last, err in C.pool_map(run_one, jobs):
         stats["evaluations"] += 1
         stats["seen"].add((name, jit))
-        m = re.match(r"=> ok .*\((\d+) (?:\((\d+) (\d+)\)|0) (?:\((\d+) (\d+)\)|0)\)$", last)
+        m = re.match(r"=> ok .*\((\d+) (?:\((\d+) (\d+)\)|0) (?:\((\d+) (\d+)\)|0) (?:\((\d+) (\d+)\)|0)\)$", last)
         expect = n if name != "deep-nontail" else (200000 if ctx.quick() else 2000000)
         bad = None
         if rc != 0:
@@ -96,9 +102,9 @@ def run(ctx):
             bad = "unexpected result line: %s" % last[:200]
         elif int(m.group(1)) != expect:
             bad = "wrong value %s (expected %d)" % (m.group(1), expect)
-        elif name != "deep-nontail" and (m.group(2), m.group(3)) != (m.group(4), m.group(5)):
-            bad = "stack depth grew with the iteration count: (frames, operands) = (%s, %s) near the end vs (%s, %s) near the start" % (
-                m.group(4), m.group(5), m.group(2), m.group(3))
+        elif name != "deep-nontail" and not ((m.group(2), m.group(3)) == (m.group(4), m.group(5)) == (m.group(6), m.group(7))):
+            bad = "stack depth changes with the iteration count: (frames, operands) = (%s, %s) near the start, (%s, %s) half way, (%s, %s) near the end" % (
+                m.group(2), m.group(3), m.group(6), m.group(7), m.group(4), m.group(5))
         if len(stats["samples"]) < 3:
             stats["samples"].append({"shape": name, "jit": jit, "iterations": n, "result_line": last[-80:]})
         if bad:
@@ -109,7 +115,7 @@ def run(ctx):
     # model: shapes + generated fragment programs (tail-aware code vs reference semantics; depth when tail-only)
     rng = random.Random(ctx.seed)
     frags = [gen_frag_program(rng, 3)[0] for _ in range(400 if ctx.quick() else 20000)]
-    text = "\n".join(model_shapes(20000) + frags) + "\n"
+    text = "\n".join(["big\n" + m for m in model_shapes(20000)] + frags) + "\n"
     rc, out, _ = C.run_bin([C.driver_path("c09driver")], text, timeout=900)
     for i, l in enumerate(out.splitlines()):
         stats["model"] += 1
@@ -130,7 +136,7 @@ def run(ctx):
         "checker_cmd": "cd lean && lake build SteelVerif.C09.Props && lake env lean SteelVerif/C09/Audit.lean",
         "trusted_base": C.TRUSTED_BASE + ["the cfg(steel_verif) builtin #%verif-stack-depth"],
         "evaluations": stats["evaluations"] + stats["model"], "distinct_nontrivial": len(stats["seen"]),
-        "rule": "one run per (loop shape, STEEL_JIT setting) with %d iterations and depth probes at iteration 7 and N-7; distinct = different shape/config; plus %d model programs" % (n, stats["model"]),
+        "rule": "one run per (loop shape, STEEL_JIT setting) with %d iterations and depth probes at three iterations (start, half way, end; congruent mod 30); distinct = different shape/config; plus %d model programs" % (n, stats["model"]),
         "samples": stats["samples"], "iterations_per_loop": n, "model_programs": stats["model"],
         "axioms": pr.get("axioms", {}), "proof_failures": ["%s: %s" % f for f in pr["failed"]],
     }
